@@ -17,6 +17,14 @@
 //!   `reads` = number of polls that returned Pending before the poll that issued the TCP connect
 //!   (every await before the connect is an actor round trip), the request bytes, the poll count.
 //!   op = {"set":{"guid":..,"key":hex}} | {"clear":true}
+//!   HOST FAULTS: a signer may carry "replies":[{"status":403,"mode":"normal|close|partial","ops":[op..]}..]
+//!   -- the k-th request the signer's mock host receives (over all its connections) is answered by
+//!   the k-th entry (default: 200): `ops` are run to completion by the mock BEFORE it answers (the
+//!   key keeper latches a new key while the request is being rejected), "close" = the connection is
+//!   closed without an answer, "partial" = half a status line, then closed.  Schedule item
+//!   ["w",i,n] = poll signer i until its mock host has dealt with n requests (the future has not
+//!   yet been polled since), so that ["k",op] lands between a rejection and any follow-up.
+//!   EVERY request a mock host receives is reported, with the schedule position it arrived at.
 //!
 //! kind "proxy" -- the proxied route through the REAL listener (`ProxyServer::start`, hook H1 for the
 //!   attribution record): the client sends the request head, the handler parks in `body.collect()`;
@@ -24,7 +32,8 @@
 //!   self-waking yield = one position in the runtime's FIFO run queue) before running the keeper
 //!   operations.  `steps: null` = calibration: never inject, report how many turns the injector
 //!   took until the response arrived.
-//!   {"kind":"proxy","pre":[op..],"ops":[op..],"steps":n|null}
+//!   {"kind":"proxy","pre":[op..],"ops":[op..],"steps":n|null,"up_replies":[reply..]}
+//!   `up_replies` scripts the upstream mock host like "replies" above.
 use gpa::host_clients::imds_client::ImdsClient;
 use gpa::host_clients::wire_server_client::WireServerClient;
 use gpa::key_keeper::key::Key;
@@ -104,7 +113,73 @@ async fn read_request(stream: &mut tokio::net::TcpStream) -> Vec<u8> {
     }
 }
 
-const REPLY: &[u8] = b"HTTP/1.1 200 OK\r\nContent-Type: application/json\r\nContent-Length: 2\r\n\r\n{}";
+static SCHED_POS: AtomicUsize = AtomicUsize::new(0);
+
+/// a scripted mock host: records every request, runs the scripted keeper operations, answers
+struct MockState {
+    script: Vec<Value>,
+    captured: Mutex<Vec<(Vec<u8>, usize)>>, // (request bytes, schedule position at arrival)
+    handled: AtomicUsize,
+    kk: KeyKeeperSharedState,
+}
+
+impl MockState {
+    fn new(script: Option<&Value>, kk: KeyKeeperSharedState) -> Arc<Self> {
+        Arc::new(MockState {
+            script: script.and_then(|x| x.as_array()).cloned().unwrap_or_default(),
+            captured: Mutex::new(Vec::new()),
+            handled: AtomicUsize::new(0),
+            kk,
+        })
+    }
+}
+
+async fn serve_mock(mut st: tokio::net::TcpStream, state: Arc<MockState>) {
+    loop {
+        let req = read_request(&mut st).await;
+        if req.is_empty() {
+            return;
+        }
+        let ix = {
+            let mut c = state.captured.lock().unwrap();
+            c.push((req, SCHED_POS.load(Ordering::SeqCst)));
+            c.len() - 1
+        };
+        let spec = state.script.get(ix).cloned().unwrap_or(Value::Null);
+        for op in spec.get("ops").and_then(|x| x.as_array()).cloned().unwrap_or_default() {
+            let _ = apply_op(&state.kk, &op).await;
+        }
+        let status = spec.get("status").and_then(|x| x.as_u64()).unwrap_or(200);
+        let mode = spec.get("mode").and_then(|x| x.as_str()).unwrap_or("normal").to_string();
+        let mut keep = true;
+        match mode.as_str() {
+            "close" => keep = false,
+            "partial" => {
+                let _ = st.write_all(b"HTTP/1.1 200 O").await;
+                keep = false;
+            }
+            _ => {
+                let reason = match status {
+                    200 => "OK",
+                    401 => "Unauthorized",
+                    403 => "Forbidden",
+                    500 => "Internal Server Error",
+                    503 => "Service Unavailable",
+                    _ => "Status",
+                };
+                let reply = format!("HTTP/1.1 {} {}\r\nContent-Type: application/json\r\nContent-Length: 2\r\n\r\n{{}}", status, reason);
+                if st.write_all(reply.as_bytes()).await.is_err() {
+                    keep = false;
+                }
+            }
+        }
+        state.handled.fetch_add(1, Ordering::SeqCst);
+        if !keep {
+            let _ = st.shutdown().await;
+            return;
+        }
+    }
+}
 
 // ------------------------------------------------------------------------------------------
 // kind "hand"
@@ -113,7 +188,7 @@ struct Signer {
     route: String,
     fut: Option<Pin<Box<dyn Future<Output = String>>>>,
     listener: std::net::TcpListener,
-    captured: Arc<Mutex<Vec<Vec<u8>>>>,
+    mock: Arc<MockState>,
     polls: usize,
     connect_poll: Option<usize>,
     result: Option<String>,
@@ -170,15 +245,9 @@ async fn poll_once(s: &mut Signer, waker: &Waker) {
         if s.connect_poll.is_none() {
             s.connect_poll = Some(s.polls);
         }
-        let captured = s.captured.clone();
         let _ = stream.set_nonblocking(true);
-        if let Ok(mut st) = tokio::net::TcpStream::from_std(stream) {
-            tokio::spawn(async move {
-                let req = read_request(&mut st).await;
-                captured.lock().unwrap().push(req);
-                let _ = st.write_all(REPLY).await;
-                let _ = st.shutdown().await;
-            });
+        if let Ok(st) = tokio::net::TcpStream::from_std(stream) {
+            tokio::spawn(serve_mock(st, s.mock.clone()));
         }
     }
 }
@@ -204,11 +273,30 @@ async fn run_hand(sc: &Value) -> Value {
             Ok(f) => f,
             Err(e) => return json!({"ok": false, "error": e}),
         };
-        signers.push(Signer { route, fut: Some(fut), listener, captured: Arc::new(Mutex::new(Vec::new())), polls: 0, connect_poll: None, result: None });
+        let mock = MockState::new(s.get("replies"), kk.clone());
+        signers.push(Signer { route, fut: Some(fut), listener, mock, polls: 0, connect_poll: None, result: None });
     }
     let mut keeper_errors: Vec<String> = Vec::new();
-    for item in sc.get("schedule").and_then(|x| x.as_array()).cloned().unwrap_or_default() {
+    let schedule = sc.get("schedule").and_then(|x| x.as_array()).cloned().unwrap_or_default();
+    SCHED_POS.store(0, Ordering::SeqCst);
+    for (pos, item) in schedule.iter().enumerate() {
+        SCHED_POS.store(pos, Ordering::SeqCst);
         match item.get(0).and_then(|x| x.as_str()) {
+            Some("w") => {
+                let i = item.get(1).and_then(|x| x.as_u64()).unwrap_or(0) as usize;
+                let n = item.get(2).and_then(|x| x.as_u64()).unwrap_or(1) as usize;
+                if i < signers.len() {
+                    for round in 0..20000 {
+                        if signers[i].fut.is_none() || signers[i].mock.handled.load(Ordering::SeqCst) >= n {
+                            break;
+                        }
+                        poll_once(&mut signers[i], &waker).await;
+                        if round > 20 {
+                            tokio::time::sleep(Duration::from_micros(200)).await;
+                        }
+                    }
+                }
+            }
             Some("p") => {
                 let i = item.get(1).and_then(|x| x.as_u64()).unwrap_or(0) as usize;
                 if i < signers.len() {
@@ -225,6 +313,7 @@ async fn run_hand(sc: &Value) -> Value {
         }
     }
     // completion, in index order, without further keeper operations
+    SCHED_POS.store(schedule.len(), Ordering::SeqCst);
     for round in 0..20000 {
         if signers.iter().all(|s| s.fut.is_none()) {
             break;
@@ -242,15 +331,17 @@ async fn run_hand(sc: &Value) -> Value {
     let out: Vec<Value> = signers
         .iter()
         .map(|s| {
-            let cap = s.captured.lock().unwrap();
+            let cap = s.mock.captured.lock().unwrap();
             json!({
                 "route": s.route,
+                "handled": s.mock.handled.load(Ordering::SeqCst),
+                "request_pos": cap.iter().map(|r| r.1).collect::<Vec<_>>(),
                 "completed": s.fut.is_none(),
                 "result": s.result,
                 "polls": s.polls,
                 "connect_poll": s.connect_poll,
                 "reads": s.connect_poll.map(|c| c - 1),
-                "requests": cap.iter().map(|r| String::from_utf8_lossy(r).to_string()).collect::<Vec<_>>(),
+                "requests": cap.iter().map(|r| String::from_utf8_lossy(&r.0).to_string()).collect::<Vec<_>>(),
             })
         })
         .collect();
@@ -336,31 +427,19 @@ async fn run_proxy(sc: &Value) -> Value {
         Err(e) => return json!({"ok": false, "error": format!("bind upstream: {}", e)}),
     };
     let up_port = up.local_addr().map(|a| a.port()).unwrap_or(0);
-    let captured: Arc<Mutex<Vec<Vec<u8>>>> = Arc::new(Mutex::new(Vec::new()));
+    let mock = MockState::new(sc.get("up_replies"), kk.clone());
     let accepted = Arc::new(AtomicUsize::new(0));
     let up_task = tokio::spawn({
-        let captured = captured.clone();
+        let mock = mock.clone();
         let accepted = accepted.clone();
         async move {
             loop {
-                let (mut st, _) = match up.accept().await {
+                let (st, _) = match up.accept().await {
                     Ok(x) => x,
                     Err(_) => return,
                 };
                 accepted.fetch_add(1, Ordering::SeqCst);
-                let captured = captured.clone();
-                tokio::spawn(async move {
-                    loop {
-                        let req = read_request(&mut st).await;
-                        if req.is_empty() {
-                            return;
-                        }
-                        captured.lock().unwrap().push(req);
-                        if st.write_all(b"HTTP/1.1 200 OK\r\nContent-Length: 2\r\n\r\nok").await.is_err() {
-                            return;
-                        }
-                    }
-                });
+                tokio::spawn(serve_mock(st, mock.clone()));
             }
         }
     });
@@ -468,13 +547,13 @@ async fn run_proxy(sc: &Value) -> Value {
     up_task.abort();
     hooks::AUDIT.lock().unwrap().remove(&lport);
     let status = String::from_utf8_lossy(&resp).split("\r\n").next().unwrap_or("").to_string();
-    let cap = captured.lock().unwrap();
+    let cap = mock.captured.lock().unwrap();
     json!({
         "ok": !timed_out && inj_errors.is_empty() && wrote.is_ok(),
         "error": if timed_out { json!("timeout waiting for the response") } else if !inj_errors.is_empty() { json!(inj_errors) } else { Value::Null },
         "turns": turns,
         "status": status,
-        "requests": cap.iter().map(|r| String::from_utf8_lossy(r).to_string()).collect::<Vec<_>>(),
+        "requests": cap.iter().map(|r| String::from_utf8_lossy(&r.0).to_string()).collect::<Vec<_>>(),
     })
 }
 
